@@ -11,7 +11,7 @@ package main
 //	down   the billing domain is unreachable (listener closed, connections closed): transfers fail, requests must still be answered
 //	off    the CGF is disabled again
 //
-// observation: ok stor=<files stored so far> logins=<logins so far>   |   failed:<why>
+// observation: ok stor=<files stored so far> logins=<logins so far> [torn=<uploads that are not a whole CDR file>:<octets received>/<length field of the first>]   |   failed:<why>
 //
 // Every create and every update calls cgf.SendCDR before it answers (the update while it holds the subscriber's mutex), so a
 // transfer that blocks blocks the request - and, through the connection mutex, every later request of every subscriber.
@@ -37,6 +37,8 @@ type billingFtp struct {
 	conns  []net.Conn
 	stors  int
 	logins int
+	torn   int    // uploads that are not a whole CDR file: the length field of the file header differs from the octets received
+	torn1  string // the first of them: <received>/<length field>
 }
 
 var (
@@ -169,11 +171,23 @@ func (s *billingFtp) serve(c net.Conn) {
 				reply("425 no data connection")
 				continue
 			}
-			n, _ := io.Copy(io.Discard, dc)
+			body, _ := io.ReadAll(dc)
+			n := len(body)
 			_ = dc.Close()
-			files[arg] = int(n)
+			files[arg] = n
+			// what arrives in the billing domain is a whole CDR file (TS 32.297: the first four octets are the file length)
+			declared := -1
+			if n >= 4 {
+				declared = int(body[0])<<24 | int(body[1])<<16 | int(body[2])<<8 | int(body[3])
+			}
 			s.mu.Lock()
 			s.stors++
+			if declared != n {
+				s.torn++
+				if s.torn1 == "" {
+					s.torn1 = fmt.Sprintf("%d/%d", n, declared)
+				}
+			}
 			s.mu.Unlock()
 			reply("226 stored")
 		case "LIST", "MLSD":
@@ -245,5 +259,8 @@ func runCgf(t []string) string {
 	}
 	billing.mu.Lock()
 	defer billing.mu.Unlock()
+	if billing.torn > 0 {
+		return fmt.Sprintf("ok stor=%d logins=%d torn=%d:%s", billing.stors, billing.logins, billing.torn, billing.torn1)
+	}
 	return fmt.Sprintf("ok stor=%d logins=%d", billing.stors, billing.logins)
 }
